@@ -4604,6 +4604,42 @@ class NetCDFWrite(IOWrite):
         """
         self.write_vars["netcdf"].close()
 
+    def _check_file_not_needed(self, filename, fields):
+        """Refuse to replace a file that holds data still to be read.
+
+        The name under which the file is then removed and created is
+        left as it was given, so that it is the same file that
+        `os.path.isfile` was asked about.
+
+        :Parameters:
+
+            filename: `str`
+                The name of the file that is about to be replaced.
+
+            fields: sequence of `Field` or `Domain`
+                The constructs whose data must stay readable.
+
+        :Returns:
+
+            `None`
+
+        """
+        absname = os.path.abspath(filename)
+        realname = os.path.realpath(filename)
+        for f in fields:
+            # The files from which the construct was read, and the
+            # files that are still needed by any of its data (which
+            # may have been set from another construct).
+            filenames = set(self.implementation.get_original_filenames(f))
+            filenames.update(self.implementation.get_filenames(f))
+            if absname in filenames or realname in [
+                os.path.realpath(x) for x in filenames
+            ]:
+                raise ValueError(
+                    "Can't write with mode 'w' to a file that contains "
+                    f"data that needs to be read: {f!r} uses {absname}"
+                )
+
     def file_open(self, filename, mode, fmt, fields):
         """Open the netCDF file for writing.
 
@@ -4637,21 +4673,7 @@ class NetCDFWrite(IOWrite):
 
         """
         if fields and mode == "w":
-            filename = os.path.abspath(filename)
-            realname = os.path.realpath(filename)
-            for f in fields:
-                # The files from which the construct was read, and the
-                # files that are still needed by any of its data
-                # (which may have been set from another construct).
-                filenames = set(self.implementation.get_original_filenames(f))
-                filenames.update(self.implementation.get_filenames(f))
-                if filename in filenames or realname in [
-                    os.path.realpath(x) for x in filenames
-                ]:
-                    raise ValueError(
-                        "Can't write with mode 'w' to a file that contains "
-                        f"data that needs to be read: {f!r} uses {filename}"
-                    )
+            self._check_file_not_needed(filename, fields)
 
         # mode == 'w' is safer than != 'a' in case of a typo (the letters
         # are neighbours on a QWERTY keyboard) since 'w' is destructive.
